@@ -399,6 +399,62 @@ func c18CrossVersion(ctx *Ctx, r *hv.Rng) int {
 	return ops
 }
 
+// ---- family G: writes whose consistency is overridden (re-encoded by the client connection's reader, written by backend
+// connections' writers, written again on a retry), pipelined by several clients ----
+func c18Override(ctx *Ctx, r *hv.Rng) int {
+	prefix, port := px.Alloc()
+	be := fb.New(prefix, port)
+	for h := 1; h <= 2; h++ {
+		if err := be.StartHost(h); err != nil {
+			panic(err)
+		}
+	}
+	be.SetTopology(1, 2)
+	defer be.Shutdown()
+	cfg := px.DefaultConfig(be)
+	proxy.VerifSetWriteConsistencyOverride(&cfg, []primitive.ConsistencyLevel{primitive.ConsistencyLevelLocalQuorum, primitive.ConsistencyLevelEachQuorum}, primitive.ConsistencyLevelQuorum)
+	env, err := px.StartProxy(be, cfg)
+	if err != nil {
+		panic(err)
+	}
+	defer env.Close()
+	var wg sync.WaitGroup
+	nc := 6
+	per := ctx.Scale(150, 1500)
+	for i := 0; i < nc; i++ {
+		wg.Add(1)
+		go func(i int) {
+			defer wg.Done()
+			cl, err := px.Dial(env.Addr)
+			if err != nil {
+				return
+			}
+			defer cl.Close()
+			if cl.Startup(primitive.ProtocolVersion4, "") != nil {
+				return
+			}
+			for k := 0; k < per; k += 30 {
+				for j := 0; j < 30; j++ {
+					tok := fmt.Sprintf("c18o%dx%d", i, k+j)
+					if (k+j)%7 == 0 {
+						// answered with an error the policy retries on the next host: the re-encoded frame is written again
+						be.SetScript(tok, fb.Outcome{Kind: fb.ErrMsg, Msg: &message.Overloaded{ErrorMessage: "scripted"}}, fb.Outcome{Kind: fb.OkRows})
+					}
+					_ = cl.Send(primitive.ProtocolVersion4, int16(1+j), &message.Query{Query: "INSERT INTO ks.t (k, v) VALUES ('tok:" + tok + "', 1)",
+						Options: &message.QueryOptions{Consistency: primitive.ConsistencyLevelLocalQuorum}})
+				}
+				for j := 0; j < 30; j++ {
+					if f, _ := cl.Next(3 * time.Second); f == nil {
+						return
+					}
+				}
+			}
+		}(i)
+	}
+	wg.Wait()
+	return nc * per
+}
+
 func genC18(ctx *Ctx) {
 	if !raceEnabled {
 		panic("C18 must be run with the race-detector build of the harness (vh-race)")
@@ -412,7 +468,8 @@ func genC18(ctx *Ctx) {
 		name string
 		run  func(*Ctx, *hv.Rng) int
 	}{{"sessions-use-prepare-execute", c18Sessions}, {"streams-retries-drops", c18Streams}, {"events-register-leave", c18Events}, {"topology-stops-restarts", c18Topology}, {"load-balancer-plans-against-membership-events", c18Balancer},
-		{"one-statement-re-prepared-on-connections-of-every-protocol-version-at-once", c18CrossVersion}}
+		{"one-statement-re-prepared-on-connections-of-every-protocol-version-at-once", c18CrossVersion},
+		{"pipelined-writes-with-an-overridden-consistency", c18Override}}
 	seenBefore := map[string]bool{}
 	readReports := func() [][2]string {
 		var text strings.Builder
